@@ -69,6 +69,15 @@ func TestVerifC13H(t *testing.T) {
 						c13RunHTTP(rep, srv, a, ap, N, byTime, quick, false)
 						c13Start = 0
 					}
+					if ap == "testpic_2s" || ap == "testpic_8s" {
+						// the same stream numbered from another startNumber, on the same server instance (and in the same
+						// process) that has answered the numbers before: a number alone does not say which instant it is
+						for _, k := range []int64{5, 1} {
+							c13Snr = k
+							c13RunHTTP(rep, srv, a, ap, N, byTime, quick, false)
+						}
+						c13Snr = 0
+					}
 				}
 			}
 		}
@@ -90,6 +99,9 @@ func TestVerifC13H(t *testing.T) {
 // c13Start is the availabilityStartTime (s) of the stream c13RunHTTP walks; media time 0 is that wall-clock instant
 var c13Start uint64
 
+// c13Snr is the startNumber (snr_) of the stream c13RunHTTP walks (0 = not set)
+var c13Snr int64
+
 func c13RunHTTP(rep *vh.Report, srv *Server, a *vref.VAsset, asset string, N int, byTime bool, quick bool, chunked bool) {
 	v := a.Ref
 	parts := []string{fmt.Sprintf("scte35_%d", N)}
@@ -105,6 +117,10 @@ func c13RunHTTP(rep *vh.Report, srv *Server, a *vref.VAsset, asset string, N int
 		parts = append(parts, fmt.Sprintf("start_%d", S))
 		stag = ":start-off-minute"
 	}
+	if c13Snr != 0 {
+		parts = append(parts, fmt.Sprintf("snr_%d", c13Snr))
+		stag += ":snr"
+	}
 	prefix := vCfgPrefix(parts...)
 	wrapS := uint64(1<<33) / 90000
 	windows := [][2]uint64{{0, 360}, {wrapS - 180, wrapS + 180}}
@@ -112,7 +128,7 @@ func c13RunHTTP(rep *vh.Report, srv *Server, a *vref.VAsset, asset string, N int
 		windows = [][2]uint64{{0, 200}, {wrapS - 70, wrapS + 70}}
 	}
 	// a stream that has been running since 1970 (start_0 and a present-day instant): large media times
-	if S == 0 {
+	if S == 0 && c13Snr == 0 {
 		windows = append(windows, [2]uint64{1_700_000_040 - 60, 1_700_000_040 + 80})
 	} else {
 		windows = windows[:1]
@@ -154,14 +170,14 @@ func c13RunHTTP(rep *vh.Report, srv *Server, a *vref.VAsset, asset string, N int
 					if byTime {
 						name = vref.ExpandURL(strings.ReplaceAll(r.MediaTmpl, "$Number$", "$Time$"), r.ID, r.Bandwidth, 0, aS)
 					} else {
-						name = vref.ExpandURL(strings.ReplaceAll(r.MediaTmpl, "$Time$", "$Number$"), r.ID, r.Bandwidth, n, 0)
+						name = vref.ExpandURL(strings.ReplaceAll(r.MediaTmpl, "$Time$", "$Number$"), r.ID, r.Bandwidth, n+c13Snr, 0)
 					}
 				case r.Kind == "video" || len(r.Segs) == len(v.Segs):
 					rs := r.LiveStart(n)
 					if byTime {
 						name = vref.ExpandURL(strings.ReplaceAll(r.MediaTmpl, "$Number$", "$Time$"), r.ID, r.Bandwidth, 0, rs)
 					} else {
-						name = vref.ExpandURL(strings.ReplaceAll(r.MediaTmpl, "$Time$", "$Number$"), r.ID, r.Bandwidth, n, 0)
+						name = vref.ExpandURL(strings.ReplaceAll(r.MediaTmpl, "$Time$", "$Number$"), r.ID, r.Bandwidth, n+c13Snr, 0)
 					}
 				default:
 					continue
